@@ -123,6 +123,10 @@ where
             .range(ValueInterval::new_single(value)..)
             .next()
             .cloned();
+        if right.as_ref().is_some_and(|r| r.contains(value)) {
+            // Already free: nothing to do (and `value + 1` below could overflow at T::MAX)
+            return;
+        }
         let left = self
             .pool
             .range(..ValueInterval::new_single(value))
